@@ -1,5 +1,7 @@
 //! Orchestrator of the engine-R checks (generated programs compiled against /repo/join).
 mod batch;
+mod chain;
+mod chaincheck;
 mod checks;
 mod evid;
 mod gen;
@@ -39,13 +41,20 @@ fn main() {
         tier = "quick".into();
     }
     let code = match args[1].as_str() {
-        "check" => checks::run(&args[2], &tier, seed),
+        "check" => match args[2].as_str() {
+            "C01" | "C02" => chaincheck::run(&args[2], &tier, seed),
+            // second stage of C10 / C11: typed chains (iterator callbacks, fold operands)
+            "C10chain" => chaincheck::run("C10", &tier, seed),
+            "C11chain" => chaincheck::run("C11", &tier, seed),
+            _ => checks::run(&args[2], &tier, seed),
+        },
         "show" => checks::show(&args[2], &tier, seed),
         "replay" => {
             let text = std::fs::read_to_string(&args[2]).expect("replay file");
             let v: serde_json::Value = serde_json::from_str(&text).expect("replay json");
             match v["engine"].as_str() {
                 Some("R-grid") => grid::replay(&v),
+                Some("R-chain") => chaincheck::replay(&v),
                 other => {
                     eprintln!("unknown replay engine {:?}", other);
                     2
